@@ -319,14 +319,21 @@ def plumbing(ctx):
     names = [f["name"] for f in facts.adts[MEMOP]["variants"][0]["fields"]]
 
     def field(outs, fname):
-        rets = [o for o in outs if o.kind == "return"]
-        if len(rets) != 1:
-            return None, "%d result paths" % len(rets)
-        v = rets[0].value
-        if not (v[0] == "agg" and v[2] == 0 and v[3][0][0] == "agg" and v[3][0][2] == P.OP_MEMORY):
-            return None, "not Ok(Operand::Memory)"
-        mo = v[3][0][3][0]
-        return mo[3][names.index(fname)], None
+        # the fields that are not fixed by this case are opaque and may fork the builder; the field under test must
+        # come out the same on every success path
+        rets = [o for o in outs if o.kind == "return" and not (o.value[0] == "agg" and o.value[1] == A.RESULT and o.value[2] == 1)]
+        if not rets:
+            return None, "no success path"
+        vals = set()
+        for o in rets:
+            v = o.value
+            if not (v[0] == "agg" and v[2] == 0 and v[3][0][0] == "agg" and v[3][0][2] == P.OP_MEMORY):
+                return None, "not Ok(Operand::Memory)"
+            mo = v[3][0][3][0]
+            vals.add(mo[3][names.index(fname)])
+        if len(vals) != 1:
+            return None, "%d different values for %s" % (len(vals), fname)
+        return vals.pop(), None
 
     cases = [
         ("base=None", dict(base="None"), "base", A.NONE),
